@@ -242,3 +242,37 @@ pub fn hooks_json() -> J {
     }
     o
 }
+
+// ---------------------------------------------------------------- child-process protocol
+/// Selection of cases for an isolated child process: case `i` runs iff `i % nshards == shard && i >= from`.
+/// Before each case the child prints `CASE <i> <desc>` and flushes, so the parent can attribute an
+/// abort / sanitizer report to the case that was running.
+pub struct ChildSel {
+    pub child: bool,
+    pub shard: u64,
+    pub nshards: u64,
+    pub from: u64,
+}
+impl ChildSel {
+    pub fn from_ctx(ctx: &crate::Ctx) -> Self {
+        ChildSel {
+            child: ctx.flag("child"),
+            shard: ctx.arg_u64("shard").unwrap_or(0),
+            nshards: ctx.arg_u64("nshards").unwrap_or(1).max(1),
+            from: ctx.arg_u64("from").unwrap_or(0),
+        }
+    }
+    #[inline]
+    pub fn wants(&self, i: u64) -> bool {
+        i % self.nshards == self.shard && i >= self.from
+    }
+    pub fn announce(&self, i: u64, desc: &str) {
+        if self.child {
+            use std::io::Write;
+            let out = std::io::stdout();
+            let mut l = out.lock();
+            let _ = writeln!(l, "CASE {i} {desc}");
+            let _ = l.flush();
+        }
+    }
+}
